@@ -338,6 +338,10 @@ struct Case {
     /// (explicit `.profile(..)`) from the same directory into the same target; a load must not depend on earlier loads
     #[serde(default)]
     prelude_other_profile: bool,
+    /// an environment variable that is PRESENT but blank: 1 = `PX_A=` (string key: the value is the empty string, not the
+    /// files' value), 2 = `PX_B__D=` (number key: a blank cannot be a number => error, never the files' value)
+    #[serde(default)]
+    blank_env: u8,
 }
 
 fn name_of<T: Serialize>(v: T) -> String {
@@ -603,10 +607,13 @@ fn setup(case: &Case, sc: &mut Scratch) -> Setup {
             // strings as written, numbers in decimal, lists in figment's documented TOML-like
             // syntax: `["x","y"]` (Array delimited by `[]`, String delimited by `"`)
             let v = sval(k, "env");
-            let s = match &v {
+            let mut s = match &v {
                 Value::String(s) => s.clone(),
                 other => other.to_string(),
             };
+            if (case.blank_env == 1 && k == 0) || (case.blank_env == 2 && k == 2) {
+                s = String::new();
+            }
             env.push((ENV_NAMES[k].to_string(), s));
         }
     }
@@ -910,7 +917,13 @@ fn expect(case: &Case) -> Expect {
     if case.control_unknown_env && case.target == Target::DenyUnknown {
         return Expect::MustErr("control-unknown-env-key");
     }
-    let full = merged(&case.assign, BASE | PROF | ENV);
+    let mut full = merged(&case.assign, BASE | PROF | ENV);
+    if case.blank_env == 1 && case.assign[0] & ENV != 0 {
+        full[0] = Value::String(String::new());
+    }
+    if case.blank_env == 2 && case.assign[2] & ENV != 0 {
+        return Expect::MustErr("blank-env-value-for-a-number");
+    }
     let required_missing = case.target == Target::Required && full.iter().any(|v| v.is_null());
     if required_missing {
         return Expect::MustErr("required-key-missing");
@@ -1111,7 +1124,7 @@ impl Slice {
                                 dmode: *dm,
                                 target: *t,
                                 files: self.files,
-                                control_unknown_env: false, prelude_other_profile: false,
+                                control_unknown_env: false, prelude_other_profile: false, blank_env: 0,
                             });
                         }
                     }
@@ -1197,6 +1210,24 @@ fn plan(tier: verif_common::Tier) -> (Vec<Case>, Vec<Value>) {
         let generated = s.expand(&mut set);
         desc.push(json!({"slice": s.name, "assignments": s.assigns.len(), "generated": generated, "new_distinct_cases": set.len() - before}));
     }
+    // blank environment values: a variable that is present but empty still is the environment's answer for its key
+    let mut n_blank = 0usize;
+    for a in tied_assigns() {
+        for (mode, k) in [(1u8, 0usize), (2u8, 2usize)] {
+            if a[k] & ENV == 0 {
+                continue;
+            }
+            for (profile, pmode) in [(PName::Dev, PMode::EnvValid), (PName::Prod, PMode::Explicit)] {
+                let c = Case { assign: a, profile, pmode, dmode: DMode::RelCwdDefault, target: Target::Option, files: FMode::All,
+                               control_unknown_env: false, prelude_other_profile: false, blank_env: mode };
+                if set.insert(c) {
+                    n_blank += 1;
+                }
+            }
+        }
+    }
+    desc.push(json!({"slice": "blank-env: every tied assignment in which `a` (string) resp. `b.d` (number) is defined by the environment, with that variable present but EMPTY (`PX_A=`, `PX_B__D=`); a = \"\" resp. the load fails; the files' values never surface",
+                     "generated": n_blank, "new_distinct_cases": n_blank}));
     // histories: the same cases again, preceded (in the same process) by a load of the other profile from the same directory
     let tied_set: BTreeSet<Assign> = tied_assigns().into_iter().collect();
     let with_history: Vec<Case> = set
@@ -1231,7 +1262,7 @@ fn control_cases() -> Vec<Case> {
             dmode: DMode::RelCwdDefault,
             target: Target::DenyUnknown,
             files: FMode::All,
-            control_unknown_env: true, prelude_other_profile: false,
+            control_unknown_env: true, prelude_other_profile: false, blank_env: 0,
         })
         .collect()
 }
@@ -1523,12 +1554,35 @@ fn main() {
         let case = &cases[*idx];
         let (obs2, su) = run_case(case, &mut sc, &exe);
         if &obs2 != obs {
-            verif_common::machinery_error(&format!(
-                "nondeterministic outcome for case {}: first {}, then {}",
-                serde_json::to_string(case).unwrap(),
-                obs.to_json(),
-                obs2.to_json()
-            ));
+            // The worker's scratch tree is persistent: files written for EARLIER cases (other profiles, decoys) stay on disk.
+            // A loader that follows the property never reads them; one that reads a file it must not read makes the outcome
+            // depend on that history. Decide on a tree that holds nothing but this case's files, executed twice.
+            let mut fa = Scratch::new(scratch.join("recheck-fresh-a"));
+            let mut fb = Scratch::new(scratch.join("recheck-fresh-b"));
+            let (oa, sua) = run_case(case, &mut fa, &exe);
+            let (ob, _) = run_case(case, &mut fb, &exe);
+            fa.cleanup();
+            fb.cleanup();
+            if oa != ob {
+                verif_common::machinery_error(&format!(
+                    "nondeterministic outcome for case {} on two fresh trees: first {}, then {}",
+                    serde_json::to_string(case).unwrap(),
+                    oa.to_json(),
+                    ob.to_json()
+                ));
+            }
+            let exp = expect(case);
+            let judged = judge(case, &exp, &oa);
+            let what = match judged.first() {
+                Some((_, w)) => format!("{w} (fresh tree; in the worker's tree, which still held the files of earlier cases, the outcome was {}) — case {}", obs.to_json(), serde_json::to_string(case).unwrap()),
+                None => format!(
+                    "the outcome depends on files the loader must not read: {} in a tree that still held the files of earlier cases, {} in a tree with this case's files only — case {}",
+                    obs.to_json(), oa.to_json(), serde_json::to_string(case).unwrap()
+                ),
+            };
+            rep.violation(key, &what, replay_doc(case, &sua, &exp, &oa));
+            rep.suppressed += st.fail_count.get(key).copied().unwrap_or(1) - 1;
+            continue;
         }
         let what = format!("{what} — case {}", serde_json::to_string(case).unwrap());
         rep.violation(key, &what, replay_doc(case, &su, &expect(case), obs));
